@@ -2,6 +2,7 @@ import Martian.Determinism
 import Martian.DeterminismAccum
 import Martian.DeterminismAccum2
 import Martian.ForkOrder
+import Proofs.ForkOrderBij
 import Driver.Util
 
 /-! Line-protocol handler for property C10.
@@ -198,6 +199,15 @@ def handle (op : String) (args : List String) : Option String :=
       pure (Martian.ForkOrder.expandRuntime roots.length (foInner rtt) static)
     pure (if res.isEmpty then "." else
       ";".intercalate (res.map fun f => "+".intercalate (f.map foPartStr)))
+  -- instance of theorem forks_bijection: is the static list a duplicate-free enumeration of
+  -- exactly the combinations the sources define (`allForks`)?
+  | "forkbij", [roots, tbl] => do
+    let roots ← foRoots roots
+    let tbl ← foTable tbl
+    let res := Martian.ForkOrder.forkOrder roots (foInner tbl)
+    let all := Martian.ForkOrder.allForks (foInner tbl) 0 [] roots
+    pure (boolStr (res.length == all.length && res.all (fun f => all.contains f)
+      && all.all (fun f => res.contains f)))
   | "firstfail", [es] => do
     let es ← entries es
     let l ← es.mapM fun f => match f with
